@@ -163,6 +163,18 @@ void caseCorpus(vrt::Case& c)
   runOne(f[c.index].first, s, "corpus");
 }
 
+// one explicit input (replay of a libFuzzer artifact): VERIF_HEX_INPUT=<target>:<hex>
+void caseHex(vrt::Case&)
+{
+  const char* e = getenv("VERIF_HEX_INPUT");
+  if (!e) return;
+  string v = e;
+  size_t c = v.find(':');
+  if (c == string::npos) return;
+  for (size_t t = 0; t < fz::targets().size(); ++t)
+    if (v.substr(0, c) == fz::targets()[t].name) runOne(t, unhex(v.substr(c + 1)), "explicit");
+}
+
 template<size_t T> void caseGen(vrt::Case& c)
 {
   const vector<string>& pool = seeds().byTarget[T];
@@ -181,6 +193,7 @@ int main(int argc, char** argv)
   vector<vrt::Group> groups;
   groups.push_back({ "seeds", seeds().flat.size(), seeds().flat.size(), caseSeed, 120, true });
   groups.push_back({ "corpus", corpus().files.size(), corpus().files.size(), caseCorpus, 180, false });
+  groups.push_back({ "hexinput", getenv("VERIF_HEX_INPUT") ? 1u : 0u, getenv("VERIF_HEX_INPUT") ? 1u : 0u, caseHex, 120, false });
   const vrt::u64 q = 4000, th = 150000;
   groups.push_back({ "gen-text", q, th, caseGen<0>, 120, false });
   groups.push_back({ "gen-tokenizer", q, th, caseGen<1>, 120, false });
